@@ -7,6 +7,7 @@ mod common;
 mod drive_gateway;
 mod gas;
 mod gateway;
+mod its;
 mod operators;
 mod token;
 mod upgrade;
